@@ -79,6 +79,12 @@ def rule_predicates(sc, dumps, fails):
                 fails.append(("stake accepted below the minimum", {"scenario": sc, "step": k}))
             if I(a1["sa"]) != I(a0["sa"]) + amt or I(a1["bal"]) != I(a0["bal"]) - amt or I(post["total"]) != I(pre["total"]) + amt:
                 fails.append(("stake did not move exactly the amount", {"scenario": sc, "step": k}))
+        if o["op"] == "stake" and post["err"] == "toosmall" and I(a0["sa"]) + I(o["amt"]) >= smin:
+            fails.append(("stake refused as too small although it respects the minimum in force for this block", {"scenario": sc, "step": k, "minimum_in_force": smin}))
+        if o["op"] == "unstake" and post["err"] == "toosmall":
+            rest0 = I(a0["sa"]) - I(o["amt"])
+            if rest0 == 0 or rest0 >= smin:
+                fails.append(("unstake refused as leaving too little although the remainder respects the minimum in force for this block", {"scenario": sc, "step": k, "minimum_in_force": smin, "remainder": rest0}))
         if o["op"] == "unstake" and ok:
             amt = I(o["amt"])
             if a0["sw"] + G.DELAY > no:
@@ -177,6 +183,8 @@ def run(ctx):
         scs.append(G.gen_fork_scenario(ctx.rng))
     for i in range(10 if quick else 300):
         scs.append(G.gen_param_scenario(ctx.rng))
+    for i in range(8 if quick else 300):      # a passing STAKINGMIN vote followed in the same block by stakes / unstakes between the two minima
+        scs.append(G.gen_param_inblock_scenario(ctx.rng, lower=(i % 2 == 0)))
     for i in range(9 if quick else 300):      # vote -> full unstake -> re-stake -> re-vote at -1 / 0 / +1 around the lock boundary
         scs.append(G.gen_revote_scenario(ctx.rng, offset=[-1, 0, 1][i % 3] if i < 6 else None))
     if not quick:
